@@ -222,6 +222,7 @@ prop("C06", "Each source (re)connection continues the stream gap-free or takes a
 prop("C16", "A follower's cache is a faithful copy of the leader's stream", "exploration",
      "a case = leader cache (disk|memory; log only or snapshot + log; 0-9000 bytes; optionally collected; 0/50/4200 bytes appended live while the follower is attached) x follower pre-state (disk|memory; empty | prefix of the leader's range | equal | ahead | another replication id (unrelated history, or the parent history the leader forked from) with ranges below/overlapping/beyond the leader's | a position older than anything the leader still holds; with or without a snapshot; "
      "fresh process or one whose cache object still remembers the id it followed). Real ReplicaLeader.Handle behind a real gRPC server on loopback, real ReplicaFollower.Run. The uninterrupted session is judged, then the session is repeated for EVERY message index k (1..number of messages, <= 40): the server-side stream fails after k messages, the follower is stopped, judged, restarted on the same cache object against a healthy link and judged again. "
+     "One case in four of the same-history kinds additionally has the SOURCE fail over (partial resynchronisation) when the follower's n-th request of the first session arrives (n = 1: before the hand-shake, 2: between hand-shake and data request, 3): the leader then reports [new id, previous id], its cache is re-labelled, a new writer continues at the same offset with bytes of the new history (300 at once, 200 a little later), and after the session the follower reconnects once more. A follower that still carries the previous id may hold bytes of that history only. "
      "non-trivial = distinct case with a non-empty follower pre-state and an interruption after >= 2 messages. "
      "Oracle at every stop: if the follower's cache is labelled with the leader's id, a reader over its whole reported range delivers exactly range-length bytes and every byte equals the leader history's byte function (contiguous, no foreign bytes); a cache under another id must be the untouched pre-state; a follower that holds more than the leader gets ErrLeaderTakeover and keeps its data.",
      [{"pkg": "c16", "test": "TestC16",
